@@ -4,6 +4,7 @@ Encoders (C11, C12): adjoints of the encoded ladder operators; the parity string
 strings. Helper lemmas only.
 -/
 set_option linter.unusedVariables false
+set_option linter.unusedSimpArgs false
 open Complex Matrix
 namespace Qib.Encode
 open Qib.Pauli
@@ -40,5 +41,34 @@ theorem parity_pair_ne_jw (L i : ℕ) (hL : 2 ≤ L) (hi : i < L) (create : Bool
     ladderPair .parity L i create ≠ ladderPair .jw L i create := by
   intro h
   exact parity_s0_ne_jw L i hL hi (congrArg Prod.fst h)
+
+/-! ### the executable reference ladder entries (driver) are the entries of `ladder` -/
+
+theorem ladderSite_eq (i : ℕ) (create : Bool) (k : ℕ) (rb cb : Bool) :
+    ((ladderSite i create k rb cb : ℤ) : ℂ) =
+      (if k < i then (1 : Matrix Bool Bool ℂ) else if k = i then (if create then createM else annihilM) else pauliZ) rb cb := by
+  unfold ladderSite
+  by_cases h1 : k < i
+  · simp only [h1, if_true, Matrix.one_apply]; split <;> simp
+  · by_cases h2 : k = i
+    · simp only [h1, h2, if_true, if_false]
+      cases create <;> cases rb <;> cases cb <;> simp [createM, annihilM]
+    · simp only [h1, h2, if_false]
+      cases rb <;> cases cb <;> simp [pauliZ]
+
+/-- bridge: the dense entry computed by the driver at the flat indices of `r`, `c` (site 0 most significant) is the entry of
+the reference ladder matrix at the bit functions -/
+theorem ladderEntry_eq (L i : ℕ) (create : Bool) (r c : Fin L → Bool) :
+    ((ladderEntry L i create (natOfBits L r) (natOfBits L c) : ℤ) : ℂ) = ladder L i create r c := by
+  simp only [ladder, tens, ladderEntry]
+  rw [Int.cast_list_prod, List.map_map]
+  have h := Fin.prod_univ_eq_prod_range
+    (fun k => ((ladderSite i create k (bitAt L k (natOfBits L r)) (bitAt L k (natOfBits L c)) : ℤ) : ℂ)) L
+  rw [← list_range_prod] at h
+  simp only [Function.comp_def]
+  rw [← h]
+  apply Finset.prod_congr rfl
+  intro k _
+  rw [bitAt_natOfBits, bitAt_natOfBits, ladderSite_eq]
 
 end Qib.Encode
